@@ -1,4 +1,4 @@
-SPECIFICATION GSpec
+SPECIFICATION MSpec
 CONSTANTS
   PfxNs <- S_PfxNs
   CanonPfx <- S_CanonPfx
@@ -8,11 +8,10 @@ CONSTANTS
   Namespaces <- S_Namespaces
   Bases <- BasesTwo
   Bodies <- BodiesOne
-  MaxLen = 2
+  MaxLen = 0
   LookupPfx <- PfxTable
   WithUnderscore = TRUE
   WithNoNs = FALSE
   NrSet <- NrBoth
-INVARIANT GenInv
+INVARIANT MGenInv
 CHECK_DEADLOCK FALSE
-INVARIANT SiteInv
